@@ -44,6 +44,9 @@ func main() {
 	}
 
 	ir.KnownFuncs = rules.KnownFuncs()
+	if os.Getenv("CDIVERIF_NONORM") != "" {
+		ir.NormalizeCFG = false
+	}
 	if *dump == "knownfuncs" {
 		ir.KnownFuncs = nil
 	}
